@@ -273,4 +273,18 @@ def run (c : Cfg) (io : Nat → Fault) (st : St) : List (Ev × Bool) → St
   | [] => st
   | e :: es => run c io (step c io st e.1 e.2) es
 
+/-! ### the tool as shipped: go-nsq's consumer in front of the router -/
+
+/-- go-nsq `Consumer.shouldFailMessage`: `config.MaxAttempts > 0 && message.Attempts > config.MaxAttempts`
+— then `handlerLoop` calls `message.Finish()` itself and the handler never sees the message
+(main() uses `nsq.NewConfig()`: max_attempts = 5 unless `--consumer-opt max_attempts,N`) -/
+def shouldFail (maxAttempts attempts : Nat) : Bool := decide (maxAttempts > 0) && decide (attempts > maxAttempts)
+
+/-- one delivered message: given up on by the consumer library, or handed to the router -/
+def toolStep (c : Cfg) (io : Nat → Fault) (maxAttempts : Nat) (st : St) (m : Msg) (attempts : Nat)
+    (now : Int) (fn : String) (starved : Bool) : St :=
+  if st.status ≠ .running then st
+  else if shouldFail maxAttempts attempts then { st with finished := m :: st.finished }
+  else step c io st (.msg m now fn) starved
+
 end Nsq.Model.ToFile
